@@ -17,6 +17,7 @@ step of the model:
     < fn <l>            loop l ran the functor at the head of its queue
     < end <l>           loop l is through with a batch of functors (doPendingFunctors returned)
     < exit <l>          loop l left loop() (the final drain belongs to it)
+    < gone <l>          the EventLoop object of loop l is destroyed (functors still queued are destroyed, not run)
     < destroy           ~TcpServer on the base loop's thread, outside a functor
 
 Answer: `t <conn> <kind> <thread>` for every new observable trace entry (thread `l<k>` or `f`), then
@@ -49,6 +50,7 @@ def envAction (ws : List String) : Option Action :=
   | ["<", "fn", l] => (parseNat l).map .run
   | ["<", "end", l] => (parseNat l).map .endBatch
   | ["<", "exit", l] => (parseNat l).map .exit
+  | ["<", "gone", l] => (parseNat l).map .loopGone
   | ["<", "destroy"] => some .destroy
   | _ => none
 
